@@ -212,6 +212,8 @@ DNS = {
     "api.pub.com": "93.184.216.34", "edge.net": "172.32.0.1", "ten.net": "100.1.1.1", "twelve.org": "12.0.0.1",
     "svc.internal": "10.1.2.3", "lb.local": "127.0.0.1", "home.lan": "192.168.1.5", "corp.net": "172.20.0.9",
     "zero.host": "0.0.0.0", "nx.invalid": None,
+    # the resolver fails in other ways than "name not found"
+    "herr.invalid": "!herror", "slow.invalid": "!timeout", "nofd.invalid": "!emfile",
 }
 LITERALS = ["8.8.8.8", "172.15.0.1", "10.0.0.7", "127.0.0.1", "172.16.5.5", "192.168.0.1", "0.0.0.0", "100.64.0.1"]
 WEIRD = ["::1", "2001:db8::1", "fc00::1", "", "1234", "ünï.com", "a b", "....", "[::1]", "999.1.1.1", "localhost"]
@@ -235,7 +237,7 @@ def model_allows(host, allow, block, filter_ok):
         return False
     if host in DNS:
         ip = DNS[host]
-        if ip is None:
+        if ip is None or ip.startswith("!"):
             return None  # unresolvable: not stated
         return not is_private_v4(ip)
     try:
@@ -324,6 +326,13 @@ def simulate(run):
         if ip is None:
             run.fault("dns_failure")
             raise socket.gaierror("simulated resolution failure for %s" % host)
+        if ip.startswith("!"):
+            run.fault("dns_failure_other_than_not_found")
+            if ip == "!herror":
+                raise socket.herror(1, "simulated host lookup failure for %s" % host)
+            if ip == "!timeout":
+                raise TimeoutError("simulated resolver timeout for %s" % host)
+            raise OSError(24, "Too many open files")
         return ip
 
     traffic_filter_mod.gethostbyname = resolver
